@@ -25,6 +25,7 @@ RULE = (
 
 ADV_IDENT = ["a", "ab", "a_b", "aa", "a1", "abc", "b", "ba", "b_a", "a_"]
 ADV_ANY = ["a", "ab", "a_b", "aa", "a+b", "a(b", "b$", "b", "ba", "a1"]
+ADV_SCAN = ["py", "pya", "a", "apy", "a_py", "p", "pyc", "__init__x", "_", "__"]
 ABSTRACT = [f"c{i}" for i in range(10)]
 
 
@@ -208,7 +209,8 @@ def judge_scans(ctx, stream, n):
             mods = sorted({sc.module_of(q) for q, v in tree.items() if v is None or q.endswith(".py")})
             tree[p] = "".join(f"import {rng.choice(mods)}\n" for _ in range(rng.randint(0, 2))) + rng.choice(["", "import c9.c8\n", "import c0x\n"])
         mp = rng.choice(dirs)
-        r1, r2 = renamings(rng, ADV_IDENT)
+        # second pool: components that look like file suffixes / contain the root's name / are prefixes of "__init__"
+        r1, r2 = renamings(rng, ADV_IDENT if rng.random() < 0.5 else ADV_SCAN)
         o1, o2 = _scan((tree, mp, r1)), _scan((tree, mp, r2))
         stream.evaluations += 1
         if has_prefix_clash([ren(sc.module_of(p), r2) for p in tree]):
